@@ -5,8 +5,10 @@
 
    Code side.  [commit_fmq] / [commit_direct] are written as resumptions ([prog]): a request
    to the device together with the continuation that receives what DoTransition returned
-   (new state, error?).  They are transcriptions of the Go functions, INCLUDING that after a
-   roll-back in doConfigure the sequence carries on with the next request.  The FairMQ state and
+   (new state, error?).  They are transcriptions of the Go functions as REPAIRED (fix C16-b: after a
+   roll-back in doConfigure the state the roll-back reached is reported unless it is the state the
+   failed step was heading for; EXIT from CONFIGURED asks doReset for STANDBY and sends END from the
+   state the reset phase reached; fix C16-c: RECOVER / GO_ERROR return an error).  The FairMQ state and
    transition names, the O2<->FairMQ state map and the trigger enum come from gen/Gen_FairMQ.v,
    which the translator rewrites from the source on every run.
 
@@ -121,7 +123,8 @@ Definition do_configure (src dst : str) (nargs : N) : prog :=
   let connect : prog :=
     Req (EI evt_CONNECT fmq_BOUND fmq_DEVICE_READY 0) (fun st e =>
       if str_eqb st fmq_BOUND
-      then Req (EI evt_RESET_DEVICE fmq_BOUND fsrc 0) (fun _ _ => init_task)   (* carries on *)
+      then Req (EI evt_RESET_DEVICE fmq_BOUND fsrc 0) (fun st' _ =>
+             if ne st' fmq_DEVICE_READY then Ret (sf st') e else init_task)   (* rolled back: stop *)
       else if ne st fmq_DEVICE_READY then Ret (sf st) e
       else init_task) in
   Req (EI evt_INIT_DEVICE fsrc fmq_INITIALIZING_DEVICE nargs) (fun st e =>
@@ -130,7 +133,8 @@ Definition do_configure (src dst : str) (nargs : N) : prog :=
       if ne st fmq_INITIALIZED then Ret (sf st) e else
       Req (EI evt_BIND fmq_INITIALIZED fmq_BOUND 0) (fun st e =>
         if str_eqb st fmq_INITIALIZED
-        then Req (EI evt_RESET_DEVICE fmq_INITIALIZED fsrc 0) (fun _ _ => connect) (* carries on *)
+        then Req (EI evt_RESET_DEVICE fmq_INITIALIZED fsrc 0) (fun st' _ =>
+               if ne st' fmq_BOUND then Ret (sf st') e else connect)           (* rolled back: stop *)
         else if ne st fmq_BOUND then Ret (sf st) e
         else connect))).
 
@@ -146,19 +150,21 @@ Definition do_reset (src dst : str) (nargs : N) : prog :=
       else Ret (sf st) e)).
 
 Definition commit_fmq (evt src dst : str) (nargs : N) : prog :=
-  let fsrc := fmq_state_for_state src in
   let fdst := fmq_state_for_state dst in
   let sf := state_for_fmq_state in
-  let single (e : str) := Req (EI e fsrc fdst nargs) (fun st er => Ret (sf st) er) in
+  let single_from (s : str) (e : str) :=
+    Req (EI e (fmq_state_for_state s) fdst nargs) (fun st er => Ret (sf st) er) in
+  let single := single_from src in
   if str_eqb evt E_START then single evt_RUN
   else if str_eqb evt E_STOP then single evt_STOP
-  else if str_eqb evt E_RECOVER || str_eqb evt E_GO_ERROR then Ret src false  (* "not implemented yet" *)
+  else if str_eqb evt E_RECOVER || str_eqb evt E_GO_ERROR then Ret src true   (* "not implemented" *)
   else if str_eqb evt E_CONFIGURE then do_configure src dst nargs
   else if str_eqb evt E_RESET then do_reset src dst nargs
   else if str_eqb evt E_EXIT then
     if str_eqb src O2_CONFIGURED
-    then bind (do_reset src dst nargs)
-              (fun state er => if ne state O2_STANDBY then Ret state er else single evt_END)
+    then bind (do_reset src O2_STANDBY nargs)
+              (fun state er => if ne state O2_STANDBY then Ret state er
+                               else single_from state evt_END)           (* src = state *)
     else single evt_END
   else Ret [] false.                                                          (* "transition impossible" *)
 
